@@ -776,8 +776,14 @@ class Walker:
                     continue
                 self._maybe_raise(self.model.call_raises(self, op, s3), op, s3, exits)
                 if not self._pure_call(val):
-                    # an opaque call may change any field: forget facts about attribute paths
+                    # an opaque call may change any field: forget facts about attribute paths,
+                    # and facts about the (mutable) locals it was given
                     s3 = self.invalidate_field_facts(s3)
+                    if s3.facts:
+                        touched = names_in(e) | names_in(val)
+                        facts = {k: v2 for k, v2 in s3.facts.items() if not (v2[1] & touched)}
+                        if len(facts) != len(s3.facts):
+                            s3 = s3.clone(facts=facts)
                 if call_name(val) == 'super':
                     tok = self.token('c', ('call', val, op, s3.recv, s3.env.get('self', mk_name('self'))))
                 else:
